@@ -118,13 +118,13 @@ type QR struct {
 
 // Plan is the factored request plan of one listing kind, as exported by TLC (ChainQuery!Plan).
 type Plan struct {
-	Kind    string   `json:"kind"`
-	Rich    []Filter `json:"rich"`
-	RichPg  []Pg     `json:"richpg"`
-	KeyF    []Filter `json:"keyf"`
-	KeyPg   []Pg     `json:"keypg"`
-	All     []Filter `json:"all"`
-	BasicPg []Pg     `json:"basicpg"`
+	Kind    string           `json:"kind"`
+	Rich    []Filter         `json:"rich"`
+	RichPg  []Pg             `json:"richpg"`
+	KeyF    []Filter         `json:"keyf"`
+	KeyPg   []Pg             `json:"keypg"`
+	All     []Filter         `json:"all"`
+	BasicPg []Pg             `json:"basicpg"`
 	Walks   [][2]interface{} `json:"walks"`
 }
 
